@@ -283,16 +283,7 @@ run `m` of the sequential path assigns (same columns, scalar for a bare `_`, lis
 theorem createParams_custom (ncols : Nat) (rows : List (List α)) (ps : List CParam)
     {rs : List (CRun (CVal α))} (h : customRuns ncols rows ps = .ok rs) :
     customTuples rows ps = rs.map (fun r => r.params.map (fun kv => some kv.2)) := by
-  have hrs : rowsFrom (cenabled ps) 0 rows = some rs := by
-    unfold customRuns at h
-    dsimp only at h
-    split at h
-    · cases h
-    · split at h
-      · cases h
-      · split at h
-        · rename_i rs' hrs'; cases h; exact hrs'
-        · cases h
+  have hrs : rowsFrom (cenabled ps) 0 rows = some rs := customRuns_ok_rowsFrom h
   obtain ⟨hlen, hall⟩ := rowsFrom_spec hrs
   apply List.ext_getElem?
   intro m
